@@ -210,6 +210,14 @@ def dotname_cases(rnd):
             variants.append(hdr(b"-lhd-", [(1, nm)] + tail, lv))
             variants.append(hdr(b"-lh0-", [(1, nm), perms_f], lv, b"data"))
             variants.append(hdr(b"-lhd-", [(1, nm + b"|../outside"), (0x50, struct.pack("<H", 0o120777))], lv))
+    # separators inside the NAME header (the library replaces them; nothing downstream cleans the name): after a '|' (which
+    # splits only real symlink entries), after a backslash, at the start, doubled -- as file, directory and plain -lhd- entry
+    for nm in (b"note|/../../escaped", b"x|../../escaped", b"|/../escaped", b"a/../../escaped", b"/../escaped", b"../escaped",
+               b"a|b|/../../escaped", b"d|/..", b"a\\../../escaped", b"..//../escaped"):
+        for lv in (1, 2, 3):
+            variants.append(hdr(b"-lh0-", [(1, nm), perms_f], lv, b"data"))
+            variants.append(hdr(b"-lh5-", [(1, nm), (2, b"sub\xff"), perms_f], lv, b""))
+            variants.append(hdr(b"-lhd-", [(1, nm), perms_d, owner], lv))
     for v in variants:
         arc = v + hdr(b"-lh0-", [(1, b"after"), perms_f], 2, b"x") + b"\0"
         for cmd in (b"x", b"xf", b"xq2", b"xw=o", b"e"):
